@@ -31,6 +31,11 @@ void sim_ctx_retag (int from, int to)
     for (int i = 0; i < nslots; i++) if (slots[i].live && slots[i].tag == from) slots[i].tag = to;
 }
 
+void sim_ctx_forget (int tag)
+{
+    for (int i = 0; i < nslots; i++) if (slots[i].live && slots[i].tag == tag) { slots[i].live = 0; g_sim_ctx.live--; }
+}
+
 static struct idn_resconf *valid (idn_resconf_t c)
 {
     if (c < slots || c >= slots + nslots) return NULL;
